@@ -1249,7 +1249,7 @@ pub fn c17_special_members() {
         S { id: u64, payload: Option<i64> },
     }
     let case: u8 = any();
-    crate::sym::assume(case <= 3);
+    crate::sym::assume(case <= 7);
     let smap = |pairs: Vec<(&str, Value)>| {
         let mut m = std::collections::HashMap::new();
         for (k, v) in pairs {
@@ -1279,14 +1279,28 @@ pub fn c17_special_members() {
         ),
         1 => (cel_interpreter::to_value(En::S { id: 0, payload: None }), smap(vec![("S", smap(vec![("id", Value::UInt(0)), ("payload", Value::Null)]))])),
         2 => (cel_interpreter::to_value(vec![None, Some(0i64), None]), Value::List(Arc::new(vec![Value::Null, Value::Int(0), Value::Null]))),
-        _ => {
+        3 => {
             let mut hm = std::collections::BTreeMap::new();
             hm.insert("a", None::<i64>);
             hm.insert("b", Some(0i64));
             (cel_interpreter::to_value(hm), smap(vec![("a", Value::Null), ("b", Value::Int(0))]))
         }
+        // map keys of every integer width keep their signedness: unsigned keys are uint keys, signed keys int keys
+        k => {
+            let kmap = |key: Key| {
+                let mut m = std::collections::HashMap::new();
+                m.insert(key, Value::Int(1));
+                Value::Map(Map { map: Arc::new(m) })
+            };
+            match k {
+                4 => (cel_interpreter::to_value(std::collections::BTreeMap::from([(7u32, 1i64)])), kmap(Key::Uint(7))),
+                5 => (cel_interpreter::to_value(std::collections::BTreeMap::from([(7u8, 1i64)])), kmap(Key::Uint(7))),
+                6 => (cel_interpreter::to_value(std::collections::BTreeMap::from([(-7i16, 1i64)])), kmap(Key::Int(-7))),
+                _ => (cel_interpreter::to_value(std::collections::BTreeMap::from([(7u16, 1i64)])), kmap(Key::Uint(7))),
+            }
+        }
     };
-    check!(matches!(&got, Ok(v) if same(v, &want)), "every field / entry / element is kept with its own kind, null and zero members included");
+    check!(matches!(&got, Ok(v) if same(v, &want)), "every field / entry / element is kept with its own kind (keys keep their signedness), null and zero members included");
 }
 /// C09: lists and maps are equal exactly when their elements / entries are - also when both operands are the same
 /// allocation (`x == x` on a variable, a value and its clone) and an element is not equal to itself (NaN).
